@@ -115,8 +115,15 @@ class Runner:
             res = [_run_job(j) for j in jobs]
         else:
             ctx = mp.get_context('fork')
+            prog = os.environ.get('VERIF_PROGRESS')
+            res = []
             with ctx.Pool(n, maxtasksperchild=None) as pool:
-                res = pool.map(_run_job, jobs, chunksize=chunks)
+                for r in pool.imap_unordered(_run_job, jobs, chunksize=chunks):
+                    res.append(r)
+                    if prog:
+                        print('  [%d/%d %.0fs] %s: paths=%s cex=%s %s%s' % (len(res), len(jobs), r.get('job_wall_s', 0), r.get('job'), r.get('paths'),
+                              r.get('n_cex'), r.get('inconclusive') or '', r.get('error') or ''), flush=True)
+            res.sort(key=lambda r: str(r.get('job')))
         for r in res:
             self.add(r)
         return res
